@@ -60,7 +60,9 @@ def synth_case(draw, tier):
     nf = draw(st.integers(1, 6))
     bins = []
     for _ in range(nf):
-        bins.append({"XX": draw(gens.loguniform(1e-30, 1e30)), "YY": draw(gens.loguniform(1e-30, 1e30)),
+        bins.append({"XX": draw(st.one_of(gens.loguniform(1e-30, 1e30), gens.loguniform(1e-70, 1e70))),
+                     "YY": draw(st.one_of(gens.loguniform(1e-30, 1e30), gens.loguniform(1e-70, 1e70))),
+                     "XXauto": draw(st.one_of(gens.loguniform(1e-30, 1e30), gens.loguniform(1e-290, 1e290))),
                      "g2": draw(g2_value()), "phi": draw(st.floats(-math.pi, math.pi)),
                      "n": draw(st.one_of(st.integers(1, 12), gens.loguniform_int(1, 10 ** 6)))})
     return {"bins": bins, "iscsd": draw(st.sampled_from([True, True, True, False])),
@@ -132,7 +134,7 @@ def check_formulas(res, iscsd, viol, tag):
 
 def oracle_synth(case):
     bins = case["bins"]
-    XX = np.array([b["XX"] for b in bins])
+    XX = np.array([b["XX"] if case["iscsd"] else b.get("XXauto", b["XX"]) for b in bins])
     YY = np.array([b["YY"] for b in bins])
     g2 = np.array([b["g2"] for b in bins])
     n = np.array([b["n"] for b in bins], dtype=np.int64)
@@ -156,7 +158,9 @@ def oracle_synth(case):
         labels.append("g2<1e-6")
     if np.any(n == 1):
         labels.append("n=1")
-    return Res(viol, nontrivial, labels)
+    if np.any((XX < 1e-150) | (XX > 1e150)):
+        labels.append("extreme-magnitude")
+    return Res(viol, nontrivial or (not iscsd and bool(np.any((XX < 1e-150) | (XX > 1e150)))), labels)
 
 
 @st.composite
